@@ -326,6 +326,8 @@ func RunCell(c *Cell) (res *Result) {
 		}
 		return cfg
 	}
+	var wantOut, wantErr string
+	patSeq := 0
 	var fakeRunners []*fakeAttached
 	var testRC *plugin.ReattachConfig
 	var testCancel context.CancelFunc
@@ -448,7 +450,7 @@ func RunCell(c *Cell) (res *Result) {
 				stores[cur()] = st
 			}
 			record(op, t0, err, "")
-		case "set", "get", "callback", "revcallback", "orphan", "big", "print":
+		case "set", "get", "callback", "revcallback", "orphan", "big", "print", "printpat":
 			i := cur()
 			if v, at, ok := strings.Cut(arg, "@"); ok {
 				arg = v
@@ -484,6 +486,17 @@ func RunCell(c *Cell) (res *Result) {
 				n, _ := strconv.Atoi(arg)
 				got, err := st.Big(n)
 				record(op, t0, err, strconv.Itoa(got))
+			case "printpat": // arg = <n>x<m>: n bytes to stdout and m to stderr, a position-dependent pattern, sent as one request
+				var n, m int
+				fmt.Sscanf(arg, "%dx%d", &n, &m)
+				patSeq++
+				o, e := PrintPattern('o', patSeq, n), PrintPattern('e', patSeq, m)
+				wantOut, wantErr = wantOut+o, wantErr+e
+				err := st.Print(o, e)
+				for i := 0; err == nil && i < 200 && (len(so.String()) < len(wantOut) || len(se.String()) < len(wantErr)); i++ {
+					time.Sleep(50 * time.Millisecond)
+				}
+				record(op, t0, err, "")
 			case "print":
 				err := st.Print("OUT-"+arg, "ERR-"+arg)
 				// delivery over the sync streams is asynchronous: wait (up to 10 s) for both markers
@@ -799,6 +812,8 @@ func RunCell(c *Cell) (res *Result) {
 			}
 			cl.Kill()
 			record(op, t0, nil, "")
+		default:
+			record(op, t0, errors.New("unknown operation (harness error)"), "")
 		}
 	}
 	// observations after the history
@@ -889,3 +904,16 @@ func (f *fakeAttached) Kill(context.Context) error {
 func (f *fakeAttached) ID() string                                       { return "fake" }
 func (f *fakeAttached) PluginToHost(n, a string) (string, string, error) { return n, a, nil }
 func (f *fakeAttached) HostToPlugin(n, a string) (string, string, error) { return n, a, nil }
+
+// PrintPattern is the text the n-byte write number seq to a stream carries (printable, position dependent, so that
+// loss, duplication, reordering and crossing between the streams all show).
+func PrintPattern(stream byte, seq, n int) string {
+	b := make([]byte, n)
+	for i := range b {
+		b[i] = "abcdefghijklmnopqrstuvwxyz0123456789%"[(i*7+seq*11+int(stream))%37]
+	}
+	if n > 0 {
+		b[0] = stream
+	}
+	return string(b)
+}
